@@ -270,23 +270,41 @@ def rule_a4(ctx):
     triples = []
     for b in sorted(region):
         for i, st in enumerate(body.blocks[b]["stmts"]):
-            if st["k"] == "assign" and st["rv"]["k"] == "aggregate" and st["rv"].get("akind") == "tuple" and len(st["rv"]["ops"]) == 3 and st["place"]["ty"].endswith("bool)"):
+            if st["k"] != "assign" or st["rv"]["k"] != "aggregate" or len(st["rv"]["ops"]) != 3:
+                continue
+            tys = [o.get("ty") or o.get("place", {}).get("ty") for o in st["rv"]["ops"]]
+            # (magnitude, bits, sign) as a tuple, or as a struct that is defined inside the lowering function itself
+            local_struct = st["rv"].get("akind") == "adt" and (st["rv"].get("adt") or "").startswith(body.id + "::")
+            if (st["rv"].get("akind") == "tuple" or local_struct) and sorted(tys) == ["bool", "u64", "u64"]:
+                if tys.index("bool") != 2:
+                    # normalise: the sign is looked at through its own position / field name below
+                    pass
                 triples.append((b, i, st))
     if len(triples) < 2 and not res.findings:
         raise AnchorMissing("A4: the constant-multiplication rewrite no longer splits the literal into (magnitude, bits, sign) (found %d triples)" % len(triples))
-    signed = [t for t in triples if t[2]["rv"]["ops"][2]["k"] != "const"]
+    def sign_pos(st):
+        tys = [o.get("ty") or o.get("place", {}).get("ty") for o in st["rv"]["ops"]]
+        return tys.index("bool")
+
+    def sign_names(st):
+        k = sign_pos(st)
+        names = {str(k)}
+        if st["rv"].get("fields") and k < len(st["rv"]["fields"]):
+            names.add(st["rv"]["fields"][k])
+        return names
+    signed = [t for t in triples if t[2]["rv"]["ops"][sign_pos(t[2])]["k"] != "const"]
     if not signed:
         res.bad(Finding("A4", f["id"], "sign of a signed literal factor is never computed", "no (magnitude, bits, sign) triple has a computed sign", triples[0][2]["sp"]))
         return res
     sign_switches = set()
     sign_srcs = set()
     for (b, i, st) in triples:
-        sign_srcs |= {(r, tuple(p)) for (r, p) in body.trace_operand(st["rv"]["ops"][2])}
+        sign_srcs |= {(r, tuple(p)) for (r, p) in body.trace_operand(st["rv"]["ops"][sign_pos(st)])}
     for x in region:
         tt = body.term(x)
         if tt["k"] == "switch" and tt["discr"]["k"] in ("copy", "move"):
             tr = {(r, tuple(p)) for (r, p) in body.trace_operand(tt["discr"])}
-            if any(r[0] == "agg" and (r[1], r[2]) in {(b, i) for (b, i, _) in triples} and p == ("2",) for (r, p) in tr):
+            if any(r[0] == "agg" and any((r[1], r[2]) == (b, i) and len(p) == 1 and p[0] in sign_names(st3) for (b, i, st3) in triples) for (r, p) in tr):
                 sign_switches.add(x)
             elif tr and tr <= sign_srcs and any(r[0] != "const" for (r, p) in tr):
                 sign_switches.add(x)
